@@ -10,6 +10,7 @@ import numpy as np
 
 from vp import gen, probe
 from vp import defaults
+from vp import reuse
 
 RULE = ('seeded generator: super-Gaussian (order 2/4) apodised apertures with smooth polynomial OPDs on even- and odd-sized, '
         'square and non-square arrays 24..64 per side, monolithic and angular-sector segmented masks, scale factors 0.5..4 '
@@ -146,6 +147,7 @@ def draw_scale(rng, n):
 
 def workload(ctx, lentil):
     defaults.run(ctx, lentil, 'C17', 'pixelscale/s')
+    reuse.run(ctx, lentil, 'C17', 'pixelscale/s')
     rng = ctx.rng
     n_cases = ctx.count(60, 450)
     for i in range(n_cases):
